@@ -121,7 +121,13 @@ class ANMLGrammar:
         self.timed_assignment_or_goal: List[ParseResults] = []
 
         # Base Expression elements
-        identifier = Word(alphas + "_", alphanums + "_")
+        # The word operators are reserved: if they were accepted as identifiers,
+        # "not (...)", "forall(...)" and "exists(...)" would also be parsed as
+        # fluent references with arguments.
+        reserved_word = keyword(
+            TK_NOT, TK_AND, TK_OR, TK_XOR, TK_IMPLIES, TK_FORALL, TK_EXISTS, TK_WHEN
+        )
+        identifier = Combine(~reserved_word + Word(alphas + "_", alphanums + "_"))
 
         # Negative numbers are defined with the unary minus operator
         integer = Word(nums)
